@@ -7,21 +7,25 @@ import kv
 META = {
     "property_id": "C10",
     "engine": "lean-lockset",
-    "technique": "Lean 4: generic soundness theorem of the lockset discipline over an abstract lock/happens-before semantics (Mutex, RWMutex modes, go-statements), "
-                 "evaluated by the kernel on an access table REGENERATED from the sources by a go/types translator (field read/write sites, must-locksets with caller-holds "
-                 "propagation, atomics, constructor phase, reviewed hand-off annotations); the table is validated by generated concurrent client programs over the exported "
-                 "methods run under the Go race detector, every report mapped back onto the table by a compiled Lean oracle",
+    "technique": "Lean 4: (1) generic soundness theorem of the lockset discipline over an abstract lock/happens-before semantics (Mutex, RWMutex modes, go statements, hand-offs); "
+                 "(2) a must-lockset analysis over program skeletons, proved sound for all runs (an_sound, prog_sound) and evaluated by the kernel on skeletons REGENERATED from the "
+                 "sources (control structure, lock operations, access sites, static/interface calls, closures) — it re-derives every lockset of the regenerated access table "
+                 "(repo_table_justified, repo_locks_held); (3) a simulation theorem from per-goroutine skeleton runs to global executions (sim) giving Respects and race freedom "
+                 "for every execution whose goroutines follow the skeletons (repo_no_race_of_conformance_tokens); the table and skeletons are validated by generated concurrent "
+                 "client programs over all 120 exported methods run under the Go race detector, every report classified against the table by a compiled Lean oracle",
     "level_claimed": {
         "category": "proof",
-        "text": "Kernel-checked: (1) lockset_sound — for every access table satisfying raceFree and every well-formed execution of the abstract semantics that respects the table, "
-                "any two conflicting accesses of different goroutines are ordered by happens-before (all executions, all tables, Mutex and RWMutex modes); (2) repo_race_free — "
-                "the table regenerated from the working tree satisfies raceFree (evaluation over ~1300 rows / 270 fields incl. package-level variables, protocol pages, codec objects and followed pointer aliases). PARTIAL by nature: the theorem is about the extracted "
-                "abstraction; that real executions respect the table (extractor soundness, field-identity aliasing, annotated hand-offs) is an assumption, sampled by race-detector runs.",
+        "text": "Kernel-checked: lockset_sound / lockset_sound_tokens (all tables, all executions); repo_race_free (the regenerated table, ~1360 rows / 280 locations incl. package-level "
+                "variables, protocol pages, codec objects, followed pointer aliases, published pointees); an_sound + prog_sound (the lockset analysis is sound for every run of every "
+                "skeleton program); repo_skeleton_check / repo_table_justified / repo_locks_held (all 469 locked rows of the table are re-derived from the ~860 regenerated skeletons, "
+                "0 unjustified); repo_no_race_of_conformance_tokens (no race in any well-formed execution whose goroutines follow the skeletons, given table completeness, token "
+                "hand-offs and 26 annotated assumptions). PARTIAL by nature: the translation source→skeleton/table (syntax only, positions) and the annotations are trusted, "
+                "sampled by race-detector runs.",
         "design_ref": "DESIGN.md §7 C10",
     },
     "level_note": "Weakest fit of the twenty (stated in DESIGN.md): proof over an extracted abstraction + race-detector sampling. Trusted/assumed (docs/notes/C10.md, "
-                  "section `What Respects assumes`, U1-U8, with regression patches seeded/C10-unsound-*): the go/types extractor (syntactic must-locksets; interface calls "
-                  "by class-hierarchy edges; function values and go-targets from the empty lockset; pointer aliases followed only from &x.f call arguments into struct fields; "
+                  "section `What Respects assumes`, U1-U8, with regression patches seeded/C10-unsound-*): the go/types extractor — since round 4 only its TRANSLATION of syntax into skeletons and table rows (the dataflow is re-derived in Lean); interface calls "
+                  "by class-hierarchy candidates under the icall restriction (5 of 444 sites use it); function values and go-targets from the empty lockset; pointer aliases followed only from &x.f call arguments into struct fields; "
                   "locks and fields identified by Type.field, not by instance; unlocks through unnamed *sync.Mutex locals ignored); the reviewed annotations in "
                   "go/extract/accesses/access_annotations.json (closure locks of Conn.do, the read-lock hand-off waitResponse→Batch incl. the data-dependent guard batch.err, ownership "
                   "tokens for writeBatch / Writer.writerStats / Reader.cancel / protocol pages / per-call codec objects, SASL-before-publication, atomic stats types); the Go "
@@ -29,7 +33,7 @@ META = {
 }
 
 MODULE = "KafkaVerif.Props.C10"
-SCENARIOS = ["balancers", "writer", "writergrow", "codecs", "codecfail", "readerfront", "reader", "readergroup", "readerrebalance", "conn", "transport", "clientapis"]
+SCENARIOS = ["balancers", "writer", "writergrow", "codecs", "codecfail", "readerfront", "reader", "readergroup", "readerrebalance", "conn", "transport", "transportchurn", "transporttls", "clientapis"]
 
 HDR = re.compile(r"^(Read|Write|Previous read|Previous write|Atomic read|Atomic write|Previous atomic read|Previous atomic write) at 0x[0-9a-f]+ by (?:goroutine \d+|main goroutine):")
 FRAME = re.compile(r"^\s+(\S+):(\d+)(?: \+0x[0-9a-f]+)?$")
@@ -92,11 +96,11 @@ def run(ctx):
         "interface calls are approximated by edges to every implementing method, function values start from the empty lockset; pointers to fields are followed only from &x.f call arguments into struct fields (readerStack.reader → Conn.rbuf); escapes through locals/returns/maps/channels are not (notes U2)",
         "hand-offs listed in go/extract/accesses/access_annotations.json (closure_locks, call_acquires, tokens, ctor_funcs, atomic_types) hold as justified there; tokens stand for channel/Once/WaitGroup ordering",
         "Go memory model as abstracted in Model/Lockset.lean: program order, unlock→lock (RUnlock↛RLock), go statement; atomics are race free among themselves",
-        "race-detector validation covers only the schedules that occurred in the generated programs (quick: 12 scenarios × 8 rounds; thorough: × 500 rounds × 4 seeds, GOMAXPROCS 2/4/8/16)",
+        "race-detector validation covers only the schedules that occurred in the generated programs (quick: 14 scenarios × 8 rounds; thorough: × 500 rounds × 4 seeds, GOMAXPROCS 2/4/8/16)",
     ]
     broken = []
     # ---- 1. regenerate the table
-    ok, log = ctx.extract("accesses", ["lean/KafkaVerif/Gen/Accesses.lean", ".build/c10/accesses.json"])
+    ok, log = ctx.extract("accesses", ["lean/KafkaVerif/Gen/Accesses.lean", "lean/KafkaVerif/Gen/Skeletons.lean", ".build/c10/accesses.json"])
     table = {"rows": [], "racy": [], "excluded": [], "unresolved": [], "confinement": [], "annotations_used": [], "fields": 0, "locks": []}
     if not ok:
         broken.append({"kind": "obligation", "name": "translator go/extract accesses", "detail": log[-1500:]})
@@ -107,6 +111,31 @@ def run(ctx):
     for c in table["confinement"]:
         broken.append({"kind": "obligation", "name": "annotation side condition violated", "detail": c})
     table_sites = {(r["file"], r["line"]) for r in table["rows"]}
+    # ---- 1b. lock facts: the compiled oracle computes the entry-lockset fixpoint and the list of table rows the
+    # verified analysis does not re-derive; the kernel re-checks both (Props/C10 §4)
+    lf = os.path.join(kv.LEAN, "KafkaVerif", "Gen", "LockFacts.lean")
+    try: os.remove(lf)
+    except FileNotFoundError: pass
+    orc, olog = ctx.oracle_build("oracle_c10")
+    lockfacts = {}
+    if orc is not None:
+        p = subprocess.run([orc, "lockfacts"], capture_output=True, text=True, timeout=300)
+        if p.returncode == 0 and "def skEntryR" in p.stdout:
+            open(lf, "w").write(p.stdout)
+            m = re.search(r"def unjustifiedOcc : List Nat := \[([^\]]*)\]", p.stdout)
+            unj = [int(x) for x in m.group(1).split(",") if x.strip()] if m else []
+            m = re.search(r"def loweredEntries : List Nat := \[([^\]]*)\]", p.stdout)
+            low = [int(x) for x in m.group(1).split(",") if x.strip()] if m else []
+            by_occ = {r.get("occ"): r for r in table["rows"]}
+            mi = re.search(r"def icallSites : Nat := (\d+)\ndef icallSitesUsingRestriction : Nat := (\d+)", p.stdout)
+            lockfacts = {"unjustified_rows": len(unj), "lowered_entries": len(low),
+                         "interface_call_candidate_sites": int(mi.group(1)) if mi else None,
+                         "of_which_use_the_icall_restriction": int(mi.group(2)) if mi else None,
+                         "skeletons": p.stdout.count("(.node (some [") // 2 if False else len(re.findall(r"^def sk\d+ : Cmd", open(os.path.join(kv.LEAN, "KafkaVerif", "Gen", "Skeletons.lean")).read(), re.M)),
+                         "annotated_assumptions_asm": open(os.path.join(kv.LEAN, "KafkaVerif", "Gen", "Skeletons.lean")).read().count("(.asm ") // 2,
+                         "unjustified_sites": sorted({"%s:%d %s" % (by_occ[o]["file"], by_occ[o]["line"], by_occ[o]["func"]) for o in unj if o in by_occ})[:80]}
+        else:
+            broken.append({"kind": "obligation", "name": "oracle_c10 lockfacts failed", "detail": (p.stdout[-300:] + p.stderr[-800:])})
     # ---- 2. proofs
     res = ctx.prove(MODULE)
     if not res["ok"]:
@@ -115,7 +144,6 @@ def run(ctx):
         broken.append({"kind": "obligation", "theorems": res["failed"], "detail": res["reasons"][:10],
                        "unprotected_pairs_in_table": pairs})
     # ---- 3. race-detector validation
-    orc, olog = ctx.oracle_build("oracle_c10")
     drv, dlog = ctx.go_build("./cmd/c10", "c10race", tags="c10", race=True)
     lines, reports, scen_info = [], [], {}
     if orc is None or drv is None:
@@ -133,7 +161,15 @@ def run(ctx):
             if only and s != only:
                 continue
             for i, sd in enumerate(seeds):
-                jobs.append((s, sd, rounds, procs[i % len(procs)]))
+                n = rounds
+                if thorough and s == "writergrow":
+                    n = 30       # partition counts grow by 384 per round: more rounds only make metadata answers huge
+                if thorough and s == "readerrebalance":
+                    n = 150      # ≈ 0.5 s per round (real rebalances)
+                jobs.append((s, sd, n, procs[i % len(procs)]))
+                if thorough and s == "writergrow":
+                    for extra in range(1, 6):
+                        jobs.append((s, sd + 7 * extra, n, procs[(i + extra) % len(procs)]))
         if only:  # a replay: races are schedule dependent — repeat the observation
             jobs = jobs * 12
 
@@ -229,6 +265,12 @@ def run(ctx):
                              "global_variables": sum(1 for f in {r["field"] for r in table["rows"]} if f.startswith("global:")),
                              "pointer_aliases_followed": table.get("pointer_aliases") or [],
                              "interface_call_edges_added": table.get("interface_call_edges", 0)}
+    if lockfacts.get("unjustified_rows") or lockfacts.get("lowered_entries"):
+        broken.append({"kind": "obligation", "name": "locksets of the access table not re-derived by the verified analysis of the skeletons",
+                       "detail": "unjustified rows: %s; entry locksets lowered by the fixpoint: %s" % (lockfacts.get("unjustified_sites"), lockfacts.get("lowered_entries"))})
+    rows_with_real_locks = sum(1 for r in table["rows"] if [l for l in (r["locks"] or []) if ":" not in l.split(":R")[0]])
+    ctx.coverage["lockset_analysis"] = dict(lockfacts, rows_with_real_locks=rows_with_real_locks,
+                                            note="rows outside unjustified_sites: locksets re-derived by the verified analysis of the regenerated skeletons (repo_locks_held)")
     ctx.coverage["scenarios"] = scen_info
     # ---- decide
     recorded = 0
